@@ -195,7 +195,19 @@ def variants(rng, tree):
     out.append(((op, kids[:-1]) if len(kids) > 2 else kids[0], None))  # dropped operand
     g = sorted(gen.gpr_genes(tree))
     out.append(((op, kids + [(other, [g[0], kids[0]])]), None))
+    if len(g) >= 2:
+        # same shape, same genes, the genes in permuted roles: a and (b or c) vs c and (a or b)
+        perm = g[1:] + g[:1] if rng.random() < 0.5 else rng.sample(g, len(g))
+        out.append((rename_tree(tree, dict(zip(g, perm))), None))
     return out
+
+
+def rename_tree(tree, mapping):
+    if tree is None:
+        return None
+    if isinstance(tree, str):
+        return mapping.get(tree, tree)
+    return (tree[0], [rename_tree(k, mapping) for k in tree[1]])
 
 
 def check_pairs(acc, rng, tree, ctx):
@@ -253,13 +265,27 @@ def check_remove_genes(acc, rng, ctx, gene_pool):
         return
     removed = set(rng.sample(present, rng.randint(1, min(3, len(present)))))
     rr = rng.random() < 0.5
-    form = rng.choice(["ids", "objects"])
+    form = rng.choice(["ids", "objects", "generator of ids", "iterator of objects", "tuple of ids", "set of objects"])
     texts = {r.id: r.gene_reaction_rule for r in m.reactions}
-    ctx = dict(ctx, rules=texts, removed=sorted(removed), remove_reactions=rr)
+    ctx = dict(ctx, rules=texts, removed=sorted(removed), remove_reactions=rr, argument_form=form)
+    acc.add("remove_genes_argument_forms", form)
+    touched = rng.random() < 0.5
+    if touched:
+        touch_rules(m)
+        acc.count("rules_compared_or_symbolised_before_the_edit")
+    objs = [m.genes.get_by_id(g) for g in sorted(removed)]
+    arg = {
+        "ids": sorted(removed),
+        "objects": objs,
+        "generator of ids": (g for g in sorted(removed)),
+        "iterator of objects": iter(objs),
+        "tuple of ids": tuple(sorted(removed)),
+        "set of objects": set(objs),
+    }[form]
     try:
         with warnings.catch_warnings():
             warnings.simplefilter("ignore")
-            remove_genes(m, sorted(removed) if form == "ids" else [m.genes.get_by_id(g) for g in sorted(removed)], remove_reactions=rr)
+            remove_genes(m, arg, remove_reactions=rr)
     except Exception as e:
         acc.ev()
         acc.violation(f"C08/remove_genes/raised/{type(e).__name__}", f"remove_genes raised {type(e).__name__}: {e}", ctx)
@@ -297,9 +323,139 @@ def check_remove_genes(acc, rng, ctx, gene_pool):
         leftover = set(r.gpr.genes) & removed
         if leftover:
             acc.violation("C08/remove_genes/removed-gene-still-in-rule", f"rule of {rid} still names {sorted(leftover)}", dict(ctx, reaction=rid, new_rule=r.gene_reaction_rule))
+            continue
+        rule_object_after_edit(acc, r, lambda K, t=t: gen.gpr_eval(t, set(K) | removed), set(rest) if not redundant_free(t, removed) else None, "remove_genes", dict(ctx, reaction=rid, touched_before=touched))
     for g in removed:
         if g in m.genes:
             acc.violation("C08/remove_genes/gene-still-in-model", f"gene {g} still in model.genes", ctx)
+
+
+def redundant_free(t, removed):
+    """The gene set of the simplified rule is not pinned down by the property (a rule equivalent to the
+    old one with the genes absent may or may not keep genes that have become redundant)."""
+    return True
+
+
+def touch_rules(m):
+    """What users do with rules before editing a model: compare and symbolise them (anything cached
+    by that must not survive the edit)."""
+    for r in m.reactions:
+        try:
+            r.gpr == r.gpr.copy()
+            r.gpr.as_symbolic()
+        except Exception:
+            pass
+
+
+def rule_object_after_edit(acc, r, truth, genes, what, ctx):
+    """The rule object a model edit leaves behind is a rule like any other: its text form, its symbolic
+    form and its copy have the truth table `truth` (and gene set `genes` when given) and compare equal to it."""
+    from cobra.core.gene import GPR
+
+    g0 = r.gpr
+    with warnings.catch_warnings():
+        warnings.simplefilter("ignore")
+        try:
+            trans = {"to_string": GPR.from_string(g0.to_string()), "symbolic": GPR.from_symbolic(g0.as_symbolic()), "copy": g0.copy()}
+        except Exception as e:
+            acc.ev()
+            acc.violation(f"C08/{what}/after-edit/transform-raised/{type(e).__name__}", f"transforming the rule left by {what} raised {e}", ctx)
+            return
+        names = sorted(set(g0.genes) | (genes or set()))
+        if len(names) > 7:
+            return
+        for how, g1 in trans.items():
+            acc.ev()
+            acc.count("rule_objects_checked_after_edit")
+            if genes is not None and set(g1.genes) != genes:
+                acc.violation(f"C08/{what}/after-edit/{how}/gene-set", f"after {what}, {how} of the rule {g0.to_string()!r} reports genes {sorted(g1.genes)}, expected {sorted(genes)}", dict(ctx, how=how))
+                break
+            bad = next((K for K in all_subsets(names) if bool(g1.eval(K)) != bool(truth(K))), None)
+            if bad is not None:
+                acc.violation(f"C08/{what}/after-edit/{how}/truth-table", f"after {what}, {how} of the rule {g0.to_string()!r} gives {g1.to_string()!r}, which differs with {sorted(bad)} absent", dict(ctx, how=how, knockouts=sorted(bad)))
+                break
+            try:
+                eq = g1 == g0
+            except Exception as e:
+                acc.violation(f"C08/{what}/after-edit/{how}/eq-raised/{type(e).__name__}", f"== raised {e}", dict(ctx, how=how))
+                break
+            if not eq:
+                acc.violation(f"C08/{what}/after-edit/{how}/not-equal-to-original", f"after {what}, {how} of the rule {g0.to_string()!r} does not compare equal to it", dict(ctx, how=how))
+                break
+
+
+def check_rename_genes(acc, rng, ctx, gene_pool):
+    """rename_genes / a new rule text: the rule object afterwards is the renamed / new Boolean function in
+    every form, and an old copy compares equal to it only if it is equivalent."""
+    import cobra
+    from cobra.manipulation import rename_genes
+
+    m = cobra.Model("rn")
+    a = cobra.Metabolite("a_c", compartment="c")
+    trees = {}
+    rs = []
+    for i in range(rng.randint(1, 4)):
+        r = cobra.Reaction(f"R{i}")
+        r.add_metabolites({a: -1})
+        t = gen.gpr_tree(rng, gene_pool, depth=rng.randint(0, 3), arity=3)
+        trees[r.id] = t
+        with warnings.catch_warnings():
+            warnings.simplefilter("ignore")
+            r.gene_reaction_rule = gen.gpr_text(t, rng, rng.choice(gen.STYLES))
+        rs.append(r)
+    m.add_reactions(rs)
+    present = sorted(g.id for g in m.genes)
+    fresh = [g for g in gen.PLAIN_IDS + gen.AWKWARD_IDS if g not in present and g not in gene_pool]
+    if not present or not fresh:
+        return
+    touched = rng.random() < 0.6
+    if touched:
+        touch_rules(m)
+        acc.count("rules_compared_or_symbolised_before_the_edit")
+    olds = {r.id: r.gpr.copy() for r in m.reactions}
+    kind = rng.choice(["rename_genes", "rename_genes", "new rule text"])
+    ctx = dict(ctx, rules={r.id: r.gene_reaction_rule for r in m.reactions}, edit=kind, touched_before=touched)
+    if kind == "rename_genes":
+        k = rng.randint(1, min(2, len(present)))
+        mapping = dict(zip(rng.sample(present, k), rng.sample(fresh, k)))
+        ctx["mapping"] = mapping
+        try:
+            with warnings.catch_warnings():
+                warnings.simplefilter("ignore")
+                rename_genes(m, dict(mapping))
+        except Exception as e:
+            acc.ev()
+            acc.violation(f"C08/rename_genes/raised/{type(e).__name__}", f"rename_genes raised {e}", ctx)
+            return
+        new_trees = {rid: rename_tree(t, mapping) for rid, t in trees.items()}
+    else:
+        new_trees = {}
+        for r in m.reactions:
+            t2 = gen.gpr_tree(rng, gene_pool, depth=rng.randint(0, 3), arity=3)
+            new_trees[r.id] = t2
+            with warnings.catch_warnings():
+                warnings.simplefilter("ignore")
+                r.gene_reaction_rule = gen.gpr_text(t2, rng, rng.choice(gen.STYLES))
+    for r in m.reactions:
+        t2 = new_trees[r.id]
+        genes = gen.gpr_genes(t2)
+        if len(genes | gen.gpr_genes(trees[r.id])) > 7:
+            continue
+        acc.nontrivial(kind, canon(t2), touched)
+        c2 = dict(ctx, reaction=r.id)
+        if not judge(acc, r.gpr, t2, genes, kind, c2):
+            continue
+        rule_object_after_edit(acc, r, lambda K, t2=t2: gen.gpr_eval(t2, set(K)), genes, kind, c2)
+        acc.ev()
+        try:
+            eq = olds[r.id] == r.gpr
+        except Exception as e:
+            acc.violation(f"C08/{kind}/eq-raised/{type(e).__name__}", f"== raised {e}", c2)
+            continue
+        allg = sorted(genes | gen.gpr_genes(trees[r.id]))
+        same = all(gen.gpr_eval(trees[r.id], K) == gen.gpr_eval(t2, K) for K in all_subsets(allg))
+        if eq and not same:
+            acc.violation("C08/eq/equal-but-not-equivalent", f"the rule before {kind} compares equal to the rule after it, but the truth tables differ", dict(c2, after=r.gene_reaction_rule))
 
 
 def run_random(desc, acc):
@@ -317,6 +473,8 @@ def run_random(desc, acc):
         check_pairs(acc, rng, tree, ctx)
         if case % 3 == 0:
             check_remove_genes(acc, rng, ctx, pool + [rng.choice(gen.PLAIN_IDS)])
+        if case % 3 == 1:
+            check_rename_genes(acc, rng, ctx, pool + [rng.choice(gen.PLAIN_IDS)])
         if case < 2:
             acc.sample({"tree": canon(tree), "text": gen.gpr_text(tree, rng, gen.STYLES[3])})
 
